@@ -20,7 +20,7 @@ ANCHORS = ['pycaption.scc:SCCReader._translate_word', 'pycaption.scc:_SccTimeTra
 REQUIRE = {'streams_drop': 50, 'streams_nondrop': 50, 'streams_with_offset': 50, 'gaps_closed': 20,
            'gaps_exactly_five_frames': 3, 'gaps_open': 20, 'last_caption_four_seconds': 50,
            'flash_cue_streams': 10, 'times_compared': 500, 'captions_split_same_times': 10,
-           'streams_beginning_before_the_offset': 20}
+           'streams_beginning_before_the_offset': 20, 'reads_with_lang_option': 50}
 CW = Fraction(1001000, 30)        # one code word at 29.97 fps, in microseconds
 
 
@@ -36,7 +36,8 @@ def gen(rng):
         # the stream begins before the offset: the first instants are floored at zero
         start_frame = rng.choice([0, 1, 15, 29, 30, 45, offset * 30 - 20, offset * 30 - 1])
     return {'prog': prog, 'offset': offset, 'start_frame': start_frame,
-            'min_gap': rng.choice([0, 0, 1, 2, 3, 4, 5, 6, 8, 30, 200])}
+            'min_gap': rng.choice([0, 0, 1, 2, 3, 4, 5, 6, 8, 30, 200]),
+            'lang': rng.choice([None, None, None, 'fr', 'en-US', 'x-y'])}
 
 
 def _probe(drop, extra_gap, offset, start_frame):
@@ -143,7 +144,10 @@ def check(case, ctx):
                       for c in caps)
     fails = []
     try:
-        cs = SCCReader().read(doc, offset=case['offset'])
+        kw = {'lang': case['lang']} if case.get('lang') else {}
+        if kw:
+            ctx.count('reads_with_lang_option')
+        cs = SCCReader().read(doc, offset=case['offset'], **kw)
     except CaptionReadTimingError as e:
         if flash_maybe:
             ctx.count('flash_cue_streams')
@@ -159,7 +163,7 @@ def check(case, ctx):
     if flash_sure:
         return [{'what': 'a caption displayed for less than 0.05 s was returned instead of being rejected',
                  'doc': doc, 'model': [(float(c['start']), [float(x) for x in c['end_alt']]) for c in caps]}]
-    got = [(c.start, c.end) for c in cs.get_captions('en-US')]
+    got = [(c.start, c.end) for c in cs.get_captions(case.get('lang') or 'en-US')]
     exp = []
     for c in caps:
         for _ in range(c['n']):
